@@ -171,7 +171,23 @@ CHECKS['C06'] = dict(
          'Pairs that are == but differently typed (1/1.0/True) are not constrained.',
     technique='Hypothesis metamorphic testing across processes with different hash seeds')
 
+CHECKS['C12'] = dict(
+    engine='detsched', category='exploration', design='DESIGN.md 3 C12',
+    text='The real AsyncRecordOnlyTapeCassette runs under a harness-owned deterministic thread scheduler (cooperative '
+         'Lock/Event/Thread, switch points at every line or bytecode of the cassette module and at every storage call): '
+         'Hypothesis generates workloads (producers, writes, a failing wrapped operation) and schedules (PCT priority '
+         'schedules, seeded random walks, timer firings); a stateless DFS enumerates all schedules within a preemption '
+         'bound for the smallest workloads. Oracle: content at the moment close() returns == synchronous twin, '
+         'per-recording operation order exactly once, failing op removes only itself, nothing after close, callers '
+         'never wait on the lock while its holder is inside a storage call, no deadlock.',
+    note='Schedules are data (the executed thread-choice sequence is the replay file). Limits: switch points only in '
+         'Python code of the watched module; join-timeout expiry not explored; exhaustive part covers the tiny (quick) '
+         'or tiny/small (thorough) workloads with a preemption bound, everything else is sampled.',
+    technique='schedule-controlled property-based testing (PCT / random schedules via Hypothesis) + bounded-preemption exhaustive DFS')
+
 ENGINES = [
+    ('detsched', 'pbt/detsched.py', 'deterministic thread scheduler: cooperative primitives, settrace switch points, '
+                                    'PCT/random/replay choosers', ['C12']),
     ('hashseed', 'pbt/hashseed.py', 'persistent child interpreters with fixed distinct PYTHONHASHSEED values', ['C06']),
     ('progsim', 'pbt/progsim.py', 'program simulator: JSON program descriptions -> real decorated classes, undecorated '
                                   'twin, journals, fault injection, program strategies', ['C01', 'C02', 'C03', 'C04',
